@@ -25,7 +25,7 @@ EXPLANATION = (
     "end group. Edge multisets are compared exactly, weight attributes as z3 terms. The structure (atoms, bonds) is concrete per molecule: this check "
     "quantifies over weights only."
 )
-ASSUMPTIONS = ["token chemistry and nesting shape are concrete per molecule; only weights are solver variables", "RDKit is trusted for atoms / bonds of each token",
+ASSUMPTIONS = ["for molecules with more than 10 descriptors the single weight value 1.0 is excluded from the symbolic range (the printers fork on weight != 1.0)", "token chemistry and nesting shape are concrete per molecule; only weights are solver variables", "RDKit is trusted for atoms / bonds of each token",
                "weights in {0} u [1e-6,1e6]"]
 OUTSIDE = ["everything about atoms / bonds is concrete per skeleton", "node attributes valence / hybridization (RDKit-derived, not part of the statement)"]
 REQUIRED_LABELS = ["nodes: one per atom with element, charge, aromaticity", "static edges reproduce the internal bonds", "stochastic / termination edges", "transition edges"]
@@ -223,7 +223,8 @@ def run_case(case, g, tier, res):
 
     def h(c):
         mol = g.Molecule(text)
-        roles = gen.symbolize_weights(c, mol)
+        many = len(gen.all_descriptors(mol)) > 10
+        roles = gen.symbolize_weights(c, mol, avoid_one=many)
 
         def detail(label):
             def build(mv, c):
